@@ -47,6 +47,7 @@ theorem comp_length (lit : Nat → V) (entry : Nat → Nat) (s : Stmt V) (base c
   | ifThen c neg args p ihp => simp [comp, size, ihp, nopI]
   | «while» c neg args body ih => simp [comp, size, ih, nopI] <;> omega
   | loop body ih => simp [comp, size, ih, nopI] <;> omega
+  | inl body ih => simp [comp, size, ih, nopI] <;> omega
   | _ => simp [comp, size]
 
 /-- the machine state `st` is the source state `σ` at line `pc` and call depth `d`: same registers except `ra` / `sp` (which
@@ -324,6 +325,7 @@ theorem good_mono (sem : Sem V) (lo : Nat) (a b : Nat → Prop) (hab : ∀ k, a 
   | ifThen c neg args p ihp => intro h; exact ⟨h.1, h.2.1, ihp h.2.2⟩
   | «while» c neg args body ih => intro h; exact ⟨h.1, h.2.1, ih h.2.2⟩
   | loop body ih => intro h; exact ih h
+  | inl body ih => intro h; exact ih h
   | _ => intro h; exact h
 
 theorem good_false_nocall (sem : Sem V) (lo : Nat) : ∀ s : Stmt V, Good sem lo (fun _ => False) s → NoCall s := by
@@ -335,6 +337,7 @@ theorem good_false_nocall (sem : Sem V) (lo : Nat) : ∀ s : Stmt V, Good sem lo
   | ifThen c neg args p ihp => intro h; exact ihp h.2.2
   | «while» c neg args body ih => intro h; exact ih h.2.2
   | loop body ih => intro h; exact ih h
+  | inl body ih => intro h; exact ih h
   | _ => intro _; trivial
 
 theorem hasCall_false_nocall : ∀ s : Stmt V, hasCall s = false → NoCall s := by
@@ -346,6 +349,7 @@ theorem hasCall_false_nocall : ∀ s : Stmt V, hasCall s = false → NoCall s :=
   | ifThen c neg args p ihp => intro h; exact ihp h
   | «while» c neg args body ih => intro h; exact ih h
   | loop body ih => intro h; exact ih h
+  | inl body ih => intro h; exact ih h
   | _ => intro _; trivial
 
 section sim
@@ -953,6 +957,60 @@ theorem claim_stmt (hlit : ∀ n, sem.toAddr (lit n) = some n) (hof : ∀ n, sem
           simp only [exec] at h
           rw [if_neg hb] at h
           simp [Res.done] at h
+  | inl body ih =>
+    intro ok b hokb hgb base cl bl rl σ st d stk hdb hc hat
+    have hcode : CodeAt P base ([nopI] ++ (comp lit entry body (base + 1) cl bl (base + 1 + size body) ++ [nopI])) := by
+      simpa [comp, List.append_assoc] using hc
+    have hlab : P[base]? = some nopI := by have := hcode 0 (by simp); simpa using this
+    have h1 := hcode.right
+    simp only [List.length_singleton] at h1
+    have hbody := h1.left
+    have h2 := h1.right
+    rw [comp_length] at h2
+    have hend : P[base + 1 + size body]? = some nopI := by have := h2 0 (by simp); simpa using this
+    have esz : base + size (Stmt.inl body) = base + 1 + size body + 1 := by simp [size]; omega
+    have hrun1 : ∀ k (u : St Reg V), run sem env P (k + 1) u = run sem env P k (step sem env P u) := fun k u => rfl
+    obtain ⟨hl1, rl1⟩ := step_nop sem lo env P st σ base d stk hat hlab
+    have hbd := ih ok b hokb hgb (base + 1) cl bl (base + 1 + size body) σ _ d stk hdb hbody hl1
+    constructor
+    · intro e σ' h
+      simp only [exec] at h
+      cases hx : exec sem env F n body σ with
+      | ok e1 σ1 =>
+        rw [hx] at h
+        obtain ⟨k1, hk1, hr1⟩ := hbd.1 e1 σ1 hx
+        have hfin : At sem lo (run sem env P k1 (step sem env P st)) σ1 (base + 1 + size body) d stk →
+            ∃ k, At sem lo (run sem env P k st) σ1 (base + size (Stmt.inl body)) d stk ∧
+              (NoCall (Stmt.inl body) → (run sem env P k st).regs Special.ra = st.regs Special.ra) := by
+          intro hat1
+          obtain ⟨he, re⟩ := step_nop sem lo env P _ σ1 _ d stk hat1 hend
+          refine ⟨k1 + 1 + 1, ?_, fun hnc => ?_⟩
+          · rw [hrun1, run_step, esz]; exact he
+          · rw [hrun1, run_step, re, hr1 hnc, rl1]
+        cases e1 with
+        | norm =>
+          simp only [Res.done, Res.ok.injEq] at h
+          obtain ⟨rfl, rfl⟩ := h
+          exact hfin (by simpa [land] using hk1)
+        | ret =>
+          simp only [Res.done, Res.ok.injEq] at h
+          obtain ⟨rfl, rfl⟩ := h
+          exact hfin (by simpa [land] using hk1)
+        | brk => simp at h
+        | cont => simp at h
+      | timeout σ1 => rw [hx] at h; simp at h
+      | stuck => rw [hx] at h; simp at h
+    · intro σ' h
+      simp only [exec] at h
+      cases hx : exec sem env F n body σ with
+      | ok e1 σ1 => rw [hx] at h; cases e1 <;> simp [Res.done] at h
+      | timeout σ1 =>
+        rw [hx] at h
+        simp only [Res.timeout.injEq] at h
+        subst h
+        obtain ⟨k1, pc, d', stk', hle, hk1⟩ := hbd.2 σ1 hx
+        exact ⟨k1 + 1, pc, d', stk', by omega, by rw [hrun1]; exact hk1⟩
+      | stuck => rw [hx] at h; simp at h
   | loop body ih =>
     intro ok b hokb hgb base cl bl rl σ st d stk hdb hc hat
     have hcode : CodeAt P base ([nopI] ++ (comp lit entry body (base + 1) base (base + size body + 2) rl ++ [⟨.jmp, none, [.num (lit base)]⟩, nopI])) := by
